@@ -187,6 +187,24 @@ def run(ctx):
                           "newbits": B(nb[1]) if nb[0] == "ok" else [], "only_target": False})
             ctx.nontriv(("bits", e, dt <= 302400, dt >= 4838400))
             k += 1
+    # target_to_bits on arbitrary targets: every byte length x leading byte around the sign bit (a retarget can produce any of them)
+    for n in ([3, 4, 5, 16, 28, 29, 31, 32] if q else list(range(3, 33))):
+        for lead in (0x01, 0x7f, 0x80, 0x81, 0xff):
+            for tail in ("zero", "rnd"):
+                t = int.from_bytes(bytes([lead]) + (bytes(n - 1) if tail == "zero" else rb(n - 1)), "big")
+                r = outcome(H.target_to_bits, t)
+                cases.append({"id": "tb%d.%d.%s" % (n, lead, tail), "kind": "t2b", "target": le(t), "lead": "%02x" % lead, "bits": B(r[1]) if r[0] == "ok" else []})
+                ctx.nontriv(("t2b", n, lead))
+    # retargets whose result has its leading byte exactly at / around 0x80 (x2 and x4 of 0x40.., 0x20.. coefficients)
+    for j, (coef, e, dt) in enumerate([(0x400000, 0x1c, 2419200), (0x200000, 0x1b, 4838400), (0x400001, 0x1a, 2419200), (0x7fffff, 0x1c, 1209601),
+                                       (0x404040, 0x10, 2419200), (0x200000, 0x05, 10 ** 7), (0x008000, 0x1c, 302400), (0x010000, 0x1d, 600000)]):
+        bits = coef.to_bytes(3, "little") + bytes([e])
+        t = H.bits_to_target(bits)
+        nb = outcome(H.calculate_new_bits, bits, dt)
+        back = outcome(H.target_to_bits, t)
+        cases.append({"id": "rt%d" % j, "kind": "bits", "bits": B(bits), "dt": dt, "target_ok": isinstance(t, int), "target": le(t), "back": B(back[1]) if back[0] == "ok" else [],
+                      "newbits": B(nb[1]) if nb[0] == "ok" else [], "only_target": False})
+        ctx.nontriv(("retarget-sign-boundary", j))
     # headers: regtest-difficulty headers mined by the harness, chains with one broken link / one bad pow
     def mine(prev, good=True):
         while True:
